@@ -1,8 +1,112 @@
-From Coq Require Import List NArith Bool.
-From QV Require Import Syncvar.Defs Syncvar.Model Syncvar.Proofs.
+(* C03: syncvar_t variables obey full/empty semantics with a 60-bit payload.  Theorems about Syncvar/Model.v (the
+   executable model that the correspondence run compares with src/syncvar.c) and Syncvar/CellSpec.v (the abstract cell). *)
+From Coq Require Import List NArith Bool Permutation.
+From QV Require Import Syncvar.Defs Syncvar.Model Syncvar.CellSpec Syncvar.Proofs.
 Import ListNotations.
 Local Open Scope N_scope.
 
+(* every initialiser gives a legal variable *)
+Theorem sv_init_shape : forall v,
+  shape (mkV SYNCVAR_INITIALIZER None) /\ shape (mkV SYNCVAR_EMPTY_INITIALIZER None) /\
+  shape (mkV (SYNCVAR_INITIALIZE_TO v) None) /\ shape (mkV (SYNCVAR_EMPTY_INITIALIZE_TO v) None).
+Proof. exact shape_init. Qed.
+Print Assumptions sv_init_shape.
+
+(* every API call, by any task, in any of the legal shapes, gives a legal shape and never faults / times out *)
+Theorem sv_shape_preserved : forall x t o x' evs,
+  shape x -> step_var x t o = (x', evs) -> shape x' /\ has_fault evs = false.
+Proof. exact step_var_shape. Qed.
+Print Assumptions sv_shape_preserved.
+
+(* for every script (any tasks, any variables, any operations, any length): all reachable states are legal *)
+Theorem sv_reachable_ok : forall script s s' tr,
+  state_ok s -> run s script = (s', tr) -> state_ok s' /\ Forall (fun evs => has_fault evs = false) tr.
+Proof. exact run_ok. Qed.
+Print Assumptions sv_reachable_ok.
+
+(* the invariant in words: state 1 <-> full with blocked writers, state 3 <-> empty with blocked readers, states 0/2 <->
+   no waiters at all, hash record present <-> somebody waits (the waiter bit is never lost), no blocked operation is enabled *)
+Theorem sv_inv_holds : forall x, shape x ->
+  let st := state_of (word x) in
+  lock_of (word x) = false /\ st <= 3 /\
+  (st = 1 <-> is_full x = true /\ efq x <> []) /\
+  (st = 3 <-> is_full x = false /\ (feq x <> [] \/ ffq x <> [])) /\
+  (st = 0 \/ st = 2 -> efq x = [] /\ feq x = [] /\ ffq x = []) /\
+  (rec x <> None <-> efq x <> [] \/ feq x <> [] \/ ffq x <> []) /\
+  (efq x <> [] -> is_full x = true) /\ (feq x <> [] \/ ffq x <> [] -> is_full x = false).
+Proof. exact shape_sv_inv. Qed.
+Print Assumptions sv_inv_holds.
+
+(* each concrete step IS the step of the abstract atomic cell (same events in the same order, same resulting cell and
+   blocked sets); guard: an incrF whose sum reaches 2^60 (see incrF_wrap_refuted) *)
+Theorem sv_refines_cell : forall x t o x' evs,
+  shape x -> incr_in_range x o -> step_var x t o = (x', evs) -> spec_step (abs x) t o = (abs x', evs).
+Proof. exact step_refines. Qed.
+Print Assumptions sv_refines_cell.
+
+(* the abstract cell keeps "no blocked operation is enabled" *)
+Theorem cell_quiescent : forall a t o a' evs, quiescent a -> spec_step a t o = (a', evs) -> quiescent a'.
+Proof. exact spec_quiescent. Qed.
+Print Assumptions cell_quiescent.
+
+(* wake-up clauses of the abstract cell *)
+Theorem cell_wake_full : forall v ef fe ff a' evs,
+  wake (mkC true v) ef fe ff = (a', evs) ->
+  evs = map (fun b => Ret (w_tid b) RC_SUCCESS (dval (w_dest b) v)) (ff ++ firstn 1 fe) /\
+  pFF a' = [] /\ pFE a' = skipn 1 fe /\ pEF a' = ef /\
+  c_full (a_cell a') = negb (nonnil fe) /\ c_val (a_cell a') = v.
+Proof. exact wake_full_releases. Qed.
+Print Assumptions cell_wake_full.
+
+Theorem cell_wake_empty : forall v ef fe ff a' evs,
+  wake (mkC false v) ef fe ff = (a', evs) ->
+  evs = map (fun b => Ret (w_tid b) RC_SUCCESS None) (firstn 1 ef) /\
+  pEF a' = skipn 1 ef /\ pFE a' = fe /\ pFF a' = ff /\
+  c_full (a_cell a') = nonnil ef /\ c_val (a_cell a') = match ef with b :: _ => w_val b | [] => v end.
+Proof. exact wake_empty_releases. Qed.
+Print Assumptions cell_wake_empty.
+
+(* wake-up clauses on the concrete model: a call that makes the variable full (fill, writeF, writeEF, writeEF_nb, incrF on
+   state 3) releases ALL readFF waiters and exactly min(1,|readFE waiters|) readFE waiter, each with the new value *)
+Theorem sv_fill_releases : forall x t o nv x' evs,
+  shape x -> state_of (word x) = 3 -> fill_op o (data_of (word x)) = Some nv -> step_var x t o = (x', evs) ->
+  tl evs = map (fun b => Ret (w_tid b) RC_SUCCESS (dval (w_dest b) nv)) (ffq x ++ firstn 1 (feq x)) /\
+  ffq x' = [] /\ feq x' = skipn 1 (feq x) /\ efq x' = [] /\
+  data_of (word x') = wrap60 nv /\ is_full x' = negb (nonnil (feq x)) /\ shape x'.
+Proof. exact fill_releases_l. Qed.
+Print Assumptions sv_fill_releases.
+
+(* a call that empties the variable (empty, readFE, readFE_nb on state 1) releases exactly one writeEF waiter, whose value
+   becomes the payload; the others stay recorded *)
+Theorem sv_empty_releases : forall x t o x' evs,
+  shape x -> state_of (word x) = 1 -> empty_op o = true -> step_var x t o = (x', evs) ->
+  exists X rest, efq x = X :: rest /\
+  tl evs = [Ret (w_tid X) RC_SUCCESS None] /\ efq x' = rest /\ feq x' = [] /\ ffq x' = [] /\
+  data_of (word x') = w_val X /\ is_full x' = true /\ shape x'.
+Proof. exact empty_releases_l. Qed.
+Print Assumptions sv_empty_releases.
+
+(* a call that releases nobody never loses a waiter (with sv_inv_holds for x': nor the waiters flag, nor the record) *)
+Theorem sv_no_release_keeps_waiters : forall x t o x' evs,
+  shape x -> step_var x t o = (x', evs) -> tl evs = [] ->
+  (evs = [Blocked t] /\ exists X, w_tid X = t /\
+      (efq x' = X :: efq x /\ feq x' = feq x /\ ffq x' = ffq x \/
+       efq x' = efq x /\ feq x' = X :: feq x /\ ffq x' = ffq x \/
+       efq x' = efq x /\ feq x' = feq x /\ ffq x' = X :: ffq x)) \/
+  (efq x' = efq x /\ feq x' = feq x /\ ffq x' = ffq x).
+Proof. exact no_release_keeps_waiters_l. Qed.
+Print Assumptions sv_no_release_keeps_waiters.
+
+(* non-blocking twins: fail with OPFAIL exactly where the blocking call would enqueue the caller, otherwise identical; never enqueue *)
+Theorem sv_nb_twin : forall x t o o_nb,
+  shape x -> twin o = Some o_nb ->
+  (step_var x t o = (fst (step_var x t o), [Blocked t]) <-> step_var x t o_nb = (x, [Ret t RC_OPFAIL None])) /\
+  (snd (step_var x t o) <> [Blocked t] -> step_var x t o_nb = step_var x t o) /\
+  ~ In (Blocked t) (snd (step_var x t o_nb)).
+Proof. exact nb_twin_l. Qed.
+Print Assumptions sv_nb_twin.
+
+(* 60-bit payload *)
 Theorem payload_roundtrip : forall v st, v < two60 -> st < 8 ->
   decode (build_unlocked v st) = (v, st, false).
 Proof. exact payload_roundtrip_l. Qed.
@@ -14,3 +118,31 @@ Theorem overflow_rejected : forall x t v, two60 <= v ->
   step_var x t (WriteEF_nb v) = (x, [Ret t RC_OVERFLOW None]).
 Proof. exact overflow_rejected_l. Qed.
 Print Assumptions overflow_rejected.
+
+(* incrF: n calls by any tasks -> payload = init + sum (mod 2^60), each call returns the running sum; any order gives the same payload *)
+Theorem incrF_atomic : forall l x x' rets,
+  shape x -> run_incr x l = (x', rets) ->
+  shape x' /\ data_of (word x') = wrap60 (data_of (word x) + sum_incs l) /\
+  rets = expected_returns (data_of (word x)) l.
+Proof. exact incrF_atomic_l. Qed.
+Print Assumptions incrF_atomic.
+
+Theorem incrF_any_order : forall l l' x x1 r1 x2 r2,
+  shape x -> Permutation l l' -> run_incr x l = (x1, r1) -> run_incr x l' = (x2, r2) ->
+  data_of (word x1) = data_of (word x2).
+Proof. exact incrF_any_order_l. Qed.
+Print Assumptions incrF_any_order.
+
+(* "returns the new value": holds while the sum stays below 2^60 ... *)
+Theorem incrF_result_partial : forall x t inc x' evs,
+  shape x -> data_of (word x) + inc < two60 -> step_var x t (IncrF inc) = (x', evs) ->
+  hd Fault evs = Ret t RC_SUCCESS (Some (data_of (word x'))) /\ data_of (word x') = data_of (word x) + inc.
+Proof. exact incrF_result_partial_l. Qed.
+Print Assumptions incrF_result_partial.
+
+(* ... and fails beyond: payload 2^60-1, incrF 1 returns 2^60 while the variable now holds 0 (neither rejected nor reduced) *)
+Theorem incrF_wrap_refuted : exists x t inc x' evs,
+  shape x /\ step_var x t (IncrF inc) = (x', evs) /\ spec_step (abs x) t (IncrF inc) <> (abs x', evs) /\
+  evs = [Ret t RC_SUCCESS (Some two60)] /\ data_of (word x') = 0.
+Proof. exact incrF_wrap_refuted_l. Qed.
+Print Assumptions incrF_wrap_refuted.
